@@ -235,6 +235,14 @@ R["C20"] = {"harnesses": [H("H_C20_Main", [{"maxfiles": 2}], [{"maxfiles": 3}], 
                     "every reported violation and a sample of passing paths are re-run with the REAL binary (go build ./cmd/json-patch from the working tree) on real files"],
     "outside_bound": ["more than 3 files", "go-flags' argument parsing, the operating system, process exit plumbing", "the root cmd/json-patch (identical source apart from the import path)"]}
 
+R["C09"] = {"harnesses": [
+    H("H_History", [{"len": 1}, {"len": 2}], [{"len": 1}, {"len": 2}, {"len": 3}], ["history/B-succeeds", "history/end"],
+      "r1 := B(x); len arbitrary calls; r2 := B(x) with B one of Apply, ApplyIndent, CreateMergePatch, Equal, MergePatch, MergeMergePatches and each intervening call one of 13 kinds (the six again with other leaves, a failing Apply, malformed document / patch / merge patch / Equal operand / CreateMergePatch operand, ApplyWithOptions with EscapeHTML off); leaves symbolic; sync.Pool modelled as a LIFO stack so every pooled decoder/encoder/scanner state left behind by one call is handed to the next"),
+    H("H_SharedPatch", [{}], None, ["shared/end"], "one decoded Patch applied to D1, D2, D1 vs a freshly decoded Patch each time; the Patch's raw messages and a result fed back as the next document are compared byte for byte before/after")],
+    "anchors": ["internal/json.UnmarshalValid", "internal/json.MarshalEscaped", "(*github.com/evanphx/json-patch/v5/internal/json.decodeState).init", "internal/json.newScanner", "internal/json.freeScanner", "(github.com/evanphx/json-patch/v5.Operation).value", "v5.newRawMessage"],
+    "assumptions": ["sync.Pool = per-pool LIFO stack (the behaviour of the runtime on one goroutine with GC off; the native replay runs with GC disabled)", "concurrency is C10 (not applicable)"],
+    "outside_bound": ["histories longer than 3 calls", "the in-package inductive step on an arbitrary stale decodeState (DESIGN section 5 C09(d)) is not built"]}
+
 if __name__ == "__main__":
     json.dump(R, open(os.path.join(V, "harness", "registry.json"), "w"), indent=1)
     print("registry:", sorted(R))
